@@ -14,6 +14,7 @@ OBLIGATIONS = [
     "NanoVerif.C14.ppem_def",
     "NanoVerif.C14.placement_y",
     "NanoVerif.C14.placement_x",
+    "NanoVerif.C14.copyRuns_eq_runs",
     "NanoVerif.C14.em_height_close",
     "NanoVerif.C14.too_big_rejected",
     "NanoVerif.C14.runs_concat",
